@@ -121,12 +121,32 @@ def read_journal(path):
     return text.decode("latin-1")
 
 
+def stage_command(stage):
+    """Build what the stage needs from the current /repo tree; returns the command prefix (a list).
+
+    kind=harness : one C++ harness binary (harness/verif.hh protocol).
+    kind=pydriver: a Python driver (Hypothesis + reference implementation, oracle/hyp_common.py protocol -
+                   the same CLI and result files as a C++ harness) talking to a C++ serve shim."""
+    kind = stage.get("kind", "harness")
+    if kind == "harness":
+        return [buildlib.build_harness(stage["src"], stage.get("flavor", "asan"), stage.get("flags", ()),
+                                       stage.get("link", ()), stage.get("extra_srcs", ()), stage.get("deps", ()),
+                                       lib_defs=stage.get("lib_defs", ()), rapidcheck=stage.get("rapidcheck", True))]
+    if kind == "pydriver":
+        cmd = ["python3-vt", os.path.join(VERIF, stage["driver"])]
+        if stage.get("shim"):
+            shim = buildlib.build_harness(stage["shim"], stage.get("flavor", "asan"), stage.get("flags", ()),
+                                          stage.get("link", ()), stage.get("extra_srcs", ()), stage.get("deps", ()),
+                                          lib_defs=stage.get("lib_defs", ()), rapidcheck=False)
+            cmd += ["--shim", shim]
+        return cmd
+    raise RuntimeError("unknown stage kind %s" % kind)
+
+
 def run_harness_stage(pid, stage, tier, seed, known_sigs, only=None):
     """Build the harness from the current /repo tree and run it in shards."""
     res = StageResult(stage["name"])
-    exe = buildlib.build_harness(stage["src"], stage.get("flavor", "asan"), stage.get("flags", ()),
-                                 stage.get("link", ()), stage.get("extra_srcs", ()), stage.get("deps", ()),
-                                 lib_defs=stage.get("lib_defs", ()))
+    exe = stage_command(stage)
     nshards = stage.get("shards_%s" % tier, 16 if tier == "thorough" else 8)
     out = os.path.join(BUILD, "run", pid, stage["name"])
     shutil.rmtree(out, ignore_errors=True)
@@ -140,7 +160,7 @@ def run_harness_stage(pid, stage, tier, seed, known_sigs, only=None):
     env.update(stage.get("env", {}))
     procs = []
     for k in range(nshards):
-        cmd = [exe, "--tier", tier, "--seed", str(seed), "--shard", str(k), "--nshards", str(nshards),
+        cmd = exe + ["--tier", tier, "--seed", str(seed), "--shard", str(k), "--nshards", str(nshards),
                "--out", out, "--known-file", kf]
         if only:
             cmd += ["--only", only]
@@ -203,7 +223,7 @@ def run_harness_stage(pid, stage, tier, seed, known_sigs, only=None):
                 # not attributable to a case
                 chk = "process"
                 sig = "%s/crash:%s" % (stage["name"], summ)
-                res.failures.append({"sig": sig, "msg": logtext[-3000:], "replay_text": "# shard crashed outside a case\n# cmd: %s --tier %s --seed %s --shard %d --nshards %d\n" % (exe, tier, seed, k, nshards),
+                res.failures.append({"sig": sig, "msg": logtext[-3000:], "replay_text": "# shard crashed outside a case\n# cmd: %s --tier %s --seed %s --shard %d --nshards %d\n" % (" ".join(exe), tier, seed, k, nshards),
                                      "ext": "case", "stage": stage["name"], "crash": True, "unattributed": True})
             else:
                 m = re.search(r"^check=(.*)$", jtext, re.M)
@@ -227,7 +247,7 @@ def replay_case(exe, path, env, times=1, timeout=300):
     last = ("pass", None, "")
     for _ in range(times):
         try:
-            p = subprocess.run([exe, "--replay", path], stdout=subprocess.PIPE, stderr=subprocess.STDOUT, env=env,
+            p = subprocess.run(exe + ["--replay", path], stdout=subprocess.PIPE, stderr=subprocess.STDOUT, env=env,
                                timeout=timeout, cwd=os.path.dirname(path))
         except subprocess.TimeoutExpired:
             return ("crash", "timeout", "replay timed out")
@@ -245,7 +265,7 @@ def replay_case(exe, path, env, times=1, timeout=300):
 
 def stage_runner(stage):
     kind = stage.get("kind", "harness")
-    if kind == "harness":
+    if kind in ("harness", "pydriver"):
         return run_harness_stage
     import stages
     return getattr(stages, "run_%s_stage" % kind)
@@ -253,11 +273,9 @@ def stage_runner(stage):
 
 def stage_replayer(stage):
     kind = stage.get("kind", "harness")
-    if kind == "harness":
+    if kind in ("harness", "pydriver"):
         def rp(pid, stage, path, times=1):
-            exe = buildlib.build_harness(stage["src"], stage.get("flavor", "asan"), stage.get("flags", ()),
-                                         stage.get("link", ()), stage.get("extra_srcs", ()), stage.get("deps", ()),
-                                         lib_defs=stage.get("lib_defs", ()))
+            exe = stage_command(stage)
             env = dict(os.environ)
             env.update(SAN_ENV)
             env.update(stage.get("env", {}))
@@ -462,9 +480,8 @@ def setup():
     def b(job):
         pid, st = job
         kind = st.get("kind", "harness")
-        if kind == "harness":
-            buildlib.build_harness(st["src"], st.get("flavor", "asan"), st.get("flags", ()), st.get("link", ()),
-                                   st.get("extra_srcs", ()), st.get("deps", ()), lib_defs=st.get("lib_defs", ()))
+        if kind in ("harness", "pydriver"):
+            stage_command(st)
         else:
             import stages
             fn = getattr(stages, "setup_%s_stage" % kind, None)
